@@ -429,6 +429,8 @@ def _guard_shape(prog, eff, chk, A5):
                 if init_:
                     local_inits[x_.get('id')] = init_[-1]
 
+    side = []
+
     def cond_value(cond, val):
         """Value of a condition of the guard in the state (flag == val, the transaction the
         constructor began is still open).  sqlite3_get_autocommit() is 0 while a transaction is open."""
@@ -446,6 +448,13 @@ def _guard_shape(prog, eff, chk, A5):
             nm = (strip(children(c)[0]).get('referencedDecl') or {}).get('name')
             if nm == 'sqlite3_get_autocommit':
                 return 0
+            if nm == 'exchange' and len(children(c)) == 3:
+                # std::exchange(flag, v): yields the old value and stores v
+                tgt = strip(children(c)[1], explicit=True)
+                nv = program.literal_value(children(c)[2])
+                if tgt.get('kind') == 'MemberExpr' and tgt.get('name') == flag and isinstance(nv, bool):
+                    side.append(nv)
+                    return val
         lit = program.literal_value(c)
         if lit is not None and isinstance(lit, (bool, int)):
             return lit
@@ -470,7 +479,12 @@ def _guard_shape(prog, eff, chk, A5):
             return True
         if k == 'IfStmt':
             c = children(node)
+            del side[:]
             v = cond_value(c[0], val[0])
+            for nv in side:
+                out.append(('assign', nv))
+                val[0] = nv
+            del side[:]
             if v:
                 return events(f, c[1], val, out)
             if node.get('hasElse'):
